@@ -298,7 +298,20 @@ fn supplied<P: crate::tw::problems::HProblem>(
     let r = guarded(|| {
         config.optimize_with(&problem, |state| {
             state.insert_evaluator(mahf::problems::Sequential::<P>::new());
-            state.insert(Random::with_rng::<UserRng>(seed));
+            // three ways a caller supplies its generator: insert, insert-if-absent, entry API
+            match seed % 3 {
+                0 => {
+                    state.insert(Random::with_rng::<UserRng>(seed));
+                }
+                1 => {
+                    if !state.contains::<Random>() {
+                        state.insert(Random::with_rng::<UserRng>(seed));
+                    }
+                }
+                _ => {
+                    state.entry::<Random>().or_insert_with(|| Random::with_rng::<UserRng>(seed));
+                }
+            }
             Ok(())
         })
     });
